@@ -695,6 +695,8 @@ Inductive mutation :=
 | MPPStripRelabel                               (* proof dropped and Standard2 <-> Invoice2 *)
 | MPPResign (k : Z) (newaddr : bool)            (* signed by key k over the right message *)
 | MPPOver (da : Z) (oexcess osender : bool)     (* right key, other amount / excess / sender *)
+| MPPOverAnnounce (da : Z)                      (* the reply ANNOUNCES amount+da and carries the recipient's
+                                                  signature over that amount *)
 | MPPSaddr (a : Z) | MPPRaddr (a : Z)
 | MPPAdd (raddr : Z).                           (* a proof nobody asked for *)
 
@@ -831,6 +833,14 @@ Definition apply_mut (m : mutation) (c : cctx) (o r : cslate) : cslate :=
                                               (if oe then Cm (c_v e) (c_b e + 1) else e),
                                               (if os then pi_sender p + 1 else pi_sender p)%Z))))
                  | None => None end)
+  | MPPOverAnnounce da =>
+    let n := Z.to_N (Z.of_N (cx_amount c) + da) in
+    let r1 := mkSlate (sl_num_parts r) (sl_id r) (sl_state r) (sl_coms r) (sl_unsorted r) n (sl_fee r)
+                      (sl_feat r) (sl_feat_args r) (sl_ttl r) (sl_off r) (sl_sigs r) (sl_proof r) in
+    set_proof r1 (match sl_proof r with
+                  | Some p => Some (mkPay (pi_sender p) (pi_receiver p)
+                                          (Some (c_sign (pi_receiver p) (n, reply_excess c r, pi_sender p))))
+                  | None => None end)
   | MPPSaddr a => set_proof r (match sl_proof r with
                                | Some p => Some (mkPay a (pi_receiver p) (pi_rsig p)) | None => None end)
   | MPPRaddr a => set_proof r (match sl_proof r with
